@@ -163,7 +163,9 @@ RULES = {
     "C15": dict(what="IsFixedByteLength / TypeByteLength / MinByteLength / MaxByteLength vs model and SSZ spec sizes",
                 nontrivial=lambda inp, obs: True),
     "C16": dict(
-        what="every Gindex64 / bit-length method on generated 64-bit values; ToGindex64 on an (index, depth) grid",
+        fresh_tests=["TestFirstBitIter", "TestFirstDepth", "TestFirstBitIndex", "TestFirstBitLength", "TestFirstCoverDepth",
+                     "TestFirstToGindex", "TestFirstLeftAligned", "TestFirstGetter", "TestFirstSetter", "TestFirstZeroNode"],
+        what="every Gindex64 / bit-length method on generated 64-bit values; ToGindex64 on an (index, depth) grid; each entry point again as the first call of a fresh process",
         nontrivial=lambda inp, obs: True,
         assumptions=["uint64 inputs; gindex 0 is included for the arithmetic helpers (documented as invalid)"]),
     "C17": dict(race_extra="TestC17Race", what="ReadonlyIter / Iter (3 extra Next calls each) / Get(i) on every kind of series view; the same reads of ONE view object from six goroutines under the race detector"),
